@@ -254,6 +254,33 @@ def pause_branch(I):
 # _unmonitor, _open_run, _close_run, abort / stop / halt ...) under the asyncio model, with an arbitrary plan over open_run / monitor /
 # unmonitor / close_run / checkpoint / custom, pauses and suspensions requested at every step of the loop - also back to back, and
 # while the engine sits paused - and every post-pause decision; RunBundler is replaced by the contract the T1 tasks above establish.
+R_END = (f"{Q}.restore_monitors#ensures[ends the suspension whether or not anything is monitored: afterwards every monitor of the run - also one "
+         "started later - holds exactly one subscription (monitoring resumes after resume)]")
+
+
+@task("bundler.restore_ends_suspension", PROP, functions=[f"{Q}.restore_monitors", f"{Q}.suspend_monitors", f"{Q}.monitor"], expect=[R_END])
+def restore_ends_suspension(I):
+    """'monitoring resumes after resume': a pause / suspension that found nothing to silence must end like any other - a monitor started
+    afterwards reports (is subscribed), exactly once"""
+    w = I.w
+    env, b = bundler_setup(I)
+    d, st = monitored(I, w, b, "sig")
+    d2, st2 = monitored(I, w, b, "sig2")
+    hist = []
+    had = w.choose([False, True], "a monitor before the pause")
+    if had:
+        call_async(I, I.getattr(b, "monitor"), MsgVal("monitor", d, (), {"name": "mon"}, None))
+        hist.append("monitor sig")
+    for _ in range(w.choose([1, 2], "pause / resume cycles")):
+        call_async(I, I.getattr(b, "suspend_monitors"))
+        call_async(I, I.getattr(b, "restore_monitors"))
+        hist += ["suspend", "restore"]
+    r = call_async(I, I.getattr(b, "monitor"), MsgVal("monitor", d2, (), {"name": "mon2"}, None))
+    hist.append("monitor sig2")
+    w.check(R_END, r[0] == "ok" and st2["subs"] == 1 and st["subs"] == (1 if had else 0) and not b.attrs.get("_monitors_suspended", False),
+            {"replay": "monitors.histories", "history": hist, "clause": "c41"})
+
+
 from .t2 import t2_tasks, T2_FUNCTIONS, TRUSTED_T2            # noqa: E402
 from .run_mon4 import c41_checks, C41 as C41Mon, M_PAUSED, M_SUSP, M_BACK, M_IDLE    # noqa: E402
 
